@@ -31,6 +31,7 @@ impl Prop for C12 {
                     "一", "a一", "一a", "--一", "ab\n一二", "é", "\u{301}", "a\u{301}b", "🙂", "-🙂",
                     "\"hello world\"", "\"a\"", "x \"ab\"", "+--+\n|  | \"out\"\n+--+", "a\n\"b\"", "\"一二\" |",
                     "+--+\n|  |\n+--+\n# Legend:\na = {fill:red}\n", "ab\n# Legend:\n",
+                    "漢字漢字 \"abcdefgh\" |", "一 \"a\" -", "é一 \"lbl\"|", "+--+\r\n|ab|\r\n+--+\r\n", "a\r\nb\r\nc", "*-->\r\n\r\ntext\r\n",
                     "", " ", "\n\n", "   \n  ",
                 ] {
                     f(Case::s(d));
@@ -176,7 +177,10 @@ impl Prop for C12 {
                         let col = (e.xs[0] / s).floor() as usize;
                         let row = (e.ys[0] / (2.0 * s)).floor() as usize;
                         let at_quote = rows.get(row).and_then(|r| r.get(col)).map(|c| *c == '"').unwrap_or(false);
-                        if at_quote && has_quote {
+                        // only a text that is itself outside the canvas although every cell to its right is blank is the
+                        // known finding; a quoted text followed by an ordinary cell further right must be inside
+                        let later_cell = rows.get(row).map(|r| r.iter().skip(col + 1).rev().take_while(|c| **c != '"').any(|c| !c.is_whitespace() && *c != '\0')).unwrap_or(false);
+                        if at_quote && has_quote && !later_cell {
                             cx.fail_kf("containment", detail, "c12-quoted-text-not-in-canvas");
                             continue;
                         }
